@@ -21,6 +21,8 @@
   /* reachability probe: must be reported FAILED, otherwise the job is vacuous */
   #define OSMT_REACH(t) __CPROVER_assert(0, "reach: " t)
 #endif
+struct osmt_string { t_char *p; t_ulong n; };   /* std::string after lowering */
+struct osmt_opaque_field { char __o; };   /* a class member of a library type that no stub header describes */
 struct osmt_ilist { void *p; unsigned long n; };   /* std::initializer_list<T> after lowering */
 extern int __osmt_thrown;
 void *malloc(__CPROVER_size_t);
